@@ -86,8 +86,8 @@ def check_qc_dense(run, rng, n, thorough=False):
     for j, b in enumerate(basis):
         want = ([[0, 0], [1, 0]] if j % 2 == 0 else [[0, 0], [0, 1]]) if conserve else [[0], [0]]
         got = np.array(b.sigmaqn).reshape(2, -1).tolist()
-        if b.dofs != [j] or got != want and not (not conserve and np.array(b.sigmaqn).ravel().tolist() == [0, 0]):
-            run.violation("qc_model:basis-labels", dict(replay, site=j, got=got, want=want))
+        if list(b.dofs) != [j] or got != want:
+            run.violation("qc_model:basis-labels", dict(replay, site=j, got=got, want=want, dofs=repr(b.dofs)))
     # (b) MPO
     model = Model(basis, terms)
     mpo = Mpo(model, algo=algo)
@@ -274,6 +274,69 @@ def jw_class(tm):
     return tm.label == "qc"
 
 
+_JW_PROBE = {}
+
+
+def jw_effective(tm):
+    """does Mpo.try_swap_site(swap_jw=True) change the operator of this model class by the fermionic
+    exchange?  'qc-sigma' (sigma_+ / sigma_- / sigma_z symbols): yes.  'qc' (the symbols qc_model emits):
+    measured once on a two-orbital model — on the pinned tree it does not (finding D16)."""
+    if tm.label == "qc-sigma":
+        return True
+    if tm.label != "qc":
+        return False
+    if "qc" not in _JW_PROBE:
+        h = np.array([[0.3, 0.7], [0.7, -0.2]])
+        eri = L.symmetrise_eri(np.arange(16, dtype=float).reshape(2, 2, 2, 2) / 10 + 0.1, "8")
+        p = L.qc_tmodel(h, eri, True)
+        mpo = Mpo(p.fresh_model(), algo="Hopcroft-Karp")
+        nb = list(mpo.model.basis)
+        nb[1], nb[2] = nb[2], nb[1]
+        mpo.try_swap_site(Model(nb, mpo.model.ham_terms), True)
+        F = L.swap_matrix([2] * 4, 1, True)
+        _JW_PROBE["qc"] = absmax(mpo.todense() - F @ p.dense_h() @ F.T) < 1e-9
+    return _JW_PROBE["qc"]
+
+
+def n_lib_terms(mpo):
+    try:
+        return len(mpo.model.ham_terms)
+    except Exception:
+        return -1
+
+
+def swap_exception_signature(e, mpo, algo0, jw_eff):
+    """stable signature for an exception raised by Mpo.try_swap_site"""
+    import traceback
+    tb = traceback.extract_tb(e.__traceback__)
+    line = tb[-1].line or ""
+    if n_lib_terms(mpo) == 1:
+        return "try_swap_site:single-term-operator:raises"
+    if isinstance(e, AssertionError) and "len(new_out_ops3)" in line:
+        if jw_eff and algo0 != "qr":
+            return "try_swap_site:swap_jw:AssertionError:bond-operator-count"
+        if algo0 == "qr" and not jw_eff:
+            return "try_swap_site:mpo-built-with-qr:AssertionError:bond-operator-count"
+        if algo0 == "qr" and jw_eff:
+            return "try_swap_site:swap_jw+mpo-built-with-qr:AssertionError:bond-operator-count"
+        return "try_swap_site:graph-built-mpo:AssertionError:bond-operator-count"
+    return f"try_swap_site:raises:{type(e).__name__}:jw={jw_eff}"
+
+
+def pick_algo0(rng, jw_eff):
+    if jw_eff:
+        return "Hopcroft-Karp"
+    return str(rng.choice(["qr", "Hopcroft-Karp", "Hopcroft-Karp"]))
+
+
+def arrays_qn(mpo):
+    """after try_swap_site one entry of mpo.qn is a Python list of arrays (observation, counted); the
+    label VALUES are what we want to test, so normalise the container type"""
+    was_list = any(not isinstance(q, np.ndarray) for q in mpo.qn)
+    mpo.qn = [np.array(q) for q in mpo.qn]
+    return was_list
+
+
 # ======================================================================================= part B1
 def check_mpo_swaps(run, rng, kind):
     tm, jw_ok = gen_swap_model(rng, kind)
@@ -283,8 +346,10 @@ def check_mpo_swaps(run, rng, kind):
         return False, None
     h0 = tm.dense_h()
     model = tm.fresh_model()
-    algo0 = str(rng.choice(["qr", "Hopcroft-Karp"]))
+    jw_eff = jw and jw_effective(tm)
+    algo0 = pick_algo0(rng, jw_eff)
     mpo = Mpo(model, algo=algo0)
+    run.count(f"B1:algo0={algo0}")
     nsteps = int(rng.integers(1, 2 * n + 2))
     order = list(range(n))
     seq = []
@@ -308,7 +373,7 @@ def check_mpo_swaps(run, rng, kind):
         try:
             mpo.try_swap_site(newm, jw, algo=algo)
         except Exception as e:
-            sig = f"try_swap_site:raises:{type(e).__name__}:jw={jw}"
+            sig = swap_exception_signature(e, mpo, algo0, jw_eff)
             run.violation(sig, dict(replay, seq=seq, error=repr(e)[:300]))
             return True, None
         hn = mpo.todense()
@@ -336,6 +401,8 @@ def check_mpo_swaps(run, rng, kind):
             psi = mps.todense().ravel()
             want = (F @ h0 @ F.T) @ psi
             if np.linalg.norm(want) > 1e-8:
+                if arrays_qn(mpo):
+                    run.count("B1:observation:mpo.qn-entry-is-list-after-swap")
                 try:
                     new = mpo.apply(mps).canonicalise()
                     got = new.todense().ravel() * new.coeff / mps.coeff
@@ -375,7 +442,10 @@ def check_pair_sweeps(run, rng, kind):
     cplx = bool(rng.random() < 0.25)
     h0 = tm.dense_h()
     model = tm.fresh_model()
-    mpo = Mpo(model)
+    jw_eff = jw and jw_effective(tm)
+    algo0 = pick_algo0(rng, jw_eff)
+    mpo = Mpo(model, algo=algo0)
+    run.count(f"B2:algo0={algo0}")
     qntot, sdim = pick_sector(tm, rng)
     mps = L.random_mps(model, rng, qntot, tm.dim)
     if mps is None:
@@ -397,7 +467,7 @@ def check_pair_sweeps(run, rng, kind):
     mps.ensure_right_canonical() if rng.random() < 0.5 else mps.ensure_left_canonical()
     run.count(f"B2:kind={kind}"), run.count(f"B2:jw={jw}"), run.count(f"B2:truncate={truncate}")
     run.count(f"B2:crit={crit_mode}")
-    replay = dict(part="B2", model=tm.describe(), jw=jw, truncate=truncate, m=m, crit=crit_mode, complex=cplx,
+    replay = dict(part="B2", model=tm.describe(), jw=jw, truncate=truncate, m=m, crit=crit_mode, complex=cplx, algo0=algo0,
                   qntot=qntot.tolist(), psi0=tolist(psi0), percent=percent)
     order = list(range(n))
     F = np.eye(tm.dim)
@@ -417,9 +487,15 @@ def check_pair_sweeps(run, rng, kind):
             before = [b.dofs for b in mps.model.basis]
             try:
                 mps._update_mps(c, cidx, qnl, qnr, percent)
+            except Exception as e:
+                run.violation(f"ofs-step:_update_mps:raises:{type(e).__name__}:jw={jw}",
+                              dict(replay, log=log, cidx=cidx, error=repr(e)[:300]))
+                return True, None
+            try:
                 mpo.try_swap_site(mps.model, jw)
             except Exception as e:
-                run.violation(f"ofs-step:raises:{type(e).__name__}:jw={jw}", dict(replay, log=log, cidx=cidx, error=repr(e)[:300]))
+                run.violation(swap_exception_signature(e, mpo, algo0, jw_eff),
+                              dict(replay, log=log, cidx=cidx, algo0=algo0, error=repr(e)[:300]))
                 return True, None
             after = [b.dofs for b in mps.model.basis]
             swapped = before != after
